@@ -596,6 +596,9 @@ def run(model, rep):
     from . import c05 as _c05
     _c05.rule_b(model, Renamed(rep, {"C05.b": "C01.m-size-check"}, "C01.x-"))
     c12.rule_copies(model, Renamed(rep, {"C12.g": "C01.k-libpass-helper-copies"}, "C01.x-"))
+    from . import shared as _shared
+    _shared.rule_len_after_encode(model, rep, "C01.o-length-in-bytes", ("passlib.handlers", "passlib.utils.handlers", "libpass.hashers"), minimum=20)
+    _shared.rule_case_after_decode(model, rep, "C01.p-case-folding-on-text", ("passlib.handlers", "passlib.utils.handlers", "libpass.hashers"), minimum=5)
     # hash() / verify() reach the checksum through the lazily selected backend: the selection state is written by set_backend alone and a
     # dry-run query installs nothing (rule shared with C03)
     from . import c03 as _c03
